@@ -10,6 +10,8 @@ ANGLES = {
     2: "Prefer a change that needs an UNUSUAL INPUT SHAPE to manifest: a rarely combined pair of YANG features, a statement in an unusual place (inside rpc/action input or output, a notification, a case, a submodule of an imported module, a grouping used from another module, a nested union, a leaf-list), an extreme or boundary value, an odd but legal layout, or a particular order of statements/files. Ordinary modules (a container with a few leaves, a plain typedef, a single augment) must behave exactly as before.",
     3: "Prefer a change that hides behind an OPTION, a LESS-TRAVELLED ENTRY POINT or a YANG FEATURE that real-world modules use but toy examples do not: the library's ParseOptions (StoreUses, IgnoreSubmoduleCircularDependencies, DeviateOptions.IgnoreDeviateNotSupported), Modules.Read / GetModule / FindModule / AddPath and the search path, yangentry.Parse, the goyang command and its output formats, rarely used accessors; or YANG constructs such as yang-version 1.1 features (action, notification inside containers, anydata, several bases per identity), several revision statements, ordered-by, min/max-elements, presence, status, when/must, if-feature, extension statements, leaf-list defaults, bits, decimal64, unions inside unions, deviations with several deviate statements, submodules including submodules. With default options and plain modules everything must behave exactly as before.",
     4: "Prefer a change whose motive is PERFORMANCE or ROBUSTNESS (a cache, a memo, a sync.Pool, an early exit, a fast path, avoiding a copy or an allocation, a size hint, batching) or ERROR HANDLING (an error that is now swallowed, de-duplicated, attached to another node, reported once instead of each time, or turned into a default), and which goes wrong only when a SECOND condition holds as well: a size or count threshold is crossed, a call is repeated, two things share a key, a particular order of insertion or of map iteration occurs, a value sits exactly on a boundary.",
+    5: "Prefer a change about ALIASING AND LIFETIME of data: a slice, map or pointer that is now shared between two things that used to own their own (copies of a node, uses of a grouping, revisions of a module, a module and its submodules, two Process runs, the syntax tree and the schema tree), something reused or cached rather than rebuilt, a slice appended to or sorted in place, a reset that clears less than before. It must stay invisible until two holders of the shared thing both change it, or until a second run / second load / second copy comes along.",
+    6: "Prefer a change about ORDER AND TIE-BREAKING or about BOUNDARIES: a sort whose comparison ignores a component or is no longer total or stable, first-wins turned into last-wins (or the reverse) where duplicates or equal keys occur, output that now follows map iteration when two keys tie, a loop that starts or stops one element early, a length-vs-capacity, byte-vs-character, signed-vs-unsigned or 32-vs-64-bit slip, a limit checked with < instead of <=. It must need equal keys, a tie, an empty or single-element or maximal collection, or a value exactly on a limit to show.",
 }
 
 def main():
